@@ -171,6 +171,18 @@ def check(ck):
         ck.ob("collect_fields: the accumulator defaults to a plain dict literal",
               bool(inits) and all(unparse(n.value) in ("{}", "dict()") for n in inits), collect, inits[0] if inits else collect.node,
               construct="acc-init")
+        ck.ob("collect_fields: a fresh accumulator is created only when none was passed (a passed one is what merges sibling selections)",
+              bool(inits) and all(set(fv.conditions(n)) == {(f"{acc_param} is None", "T")} for n in inits), collect, inits[0] if inits else collect.node,
+              construct="acc-init-guard")
+        vis_param = collect.positional_params[4]
+        vinits = [n for n in walk_no_nested(collect.node) if isinstance(n, (ast.Assign, ast.AnnAssign))
+                  and unparse(n.targets[0] if isinstance(n, ast.Assign) else n.target) == vis_param]
+        ck.ob("collect_fields: a fresh visited set is created only when none was passed",
+              bool(vinits) and all(set(fv.conditions(n)) == {(f"{vis_param} is None", "T")} and unparse(n.value) == "set()" for n in vinits), collect,
+              vinits[0] if vinits else collect.node, construct="visited-init-guard")
+        rets = fv.returns()
+        ck.ob("collect_fields returns the accumulator", len(rets) == 1 and unparse(rets[0].value) == acc_param and not fv.enclosing_loops(rets[0]), collect,
+              rets[0] if rets else collect.node, construct="acc-return")
 
     # ---------------------------------------------------------------- R3
     with ck.rule("R3"):
@@ -212,10 +224,14 @@ def check(ck):
                   construct="spread:type-condition", detail=f"conditions: {conds}")
             if cond:
                 c = ast.parse(cond[0], mode="eval").body
-                ck.ob("spread arm: the condition is evaluated for the fragment definition and the runtime type",
-                      len(c.args) == 3 and unparse(c.args[2]) == collect.positional_params[1]
-                      and unparse(c.args[1]) != var, collect, e, construct="spread:type-condition-args",
-                      detail=cond[0])
+                fd = [n for n in walk_no_nested(collect.node) if isinstance(n, ast.Assign) and len(c.args) == 3 and unparse(n.targets[0]) == unparse(c.args[1])]
+                ok_fd = len(fd) == 1 and unparse(fd[0].value).startswith(f"{collect.positional_params[0]}.fragments[")
+                ck.ob("spread arm: the condition is evaluated for (context, the spread fragment's definition, the runtime type)",
+                      len(c.args) == 3 and unparse(c.args[2]) == collect.positional_params[1] and unparse(c.args[0]) == collect.positional_params[0]
+                      and ok_fd, collect, e, construct="spread:type-condition-args", detail=cond[0])
+                ck.ob("spread arm: the definition is the one registered under the spread's name",
+                      ok_fd and not_visited and unparse(fd[0].value) == f"{collect.positional_params[0]}.fragments[{not_visited[0].split(' in ')[0]}]", collect, e,
+                      construct="spread:definition-by-name")
             # recursion passes the same accumulators and the runtime type
             _rec_args(ck, collect, e, "spread")
         body, ifn = arm_body("InlineFragmentNode")
@@ -226,8 +242,8 @@ def check(ck):
                   construct="inline:type-condition", detail=f"conditions: {conds}")
             if cond:
                 c = ast.parse(cond[0], mode="eval").body
-                ck.ob("inline arm: the condition is evaluated for this selection and the runtime type",
-                      len(c.args) == 3 and unparse(c.args[1]) == var and unparse(c.args[2]) == collect.positional_params[1],
+                ck.ob("inline arm: the condition is evaluated for (context, this selection, the runtime type)",
+                      len(c.args) == 3 and unparse(c.args[0]) == collect.positional_params[0] and unparse(c.args[1]) == var and unparse(c.args[2]) == collect.positional_params[1],
                       collect, e, construct="inline:type-condition-args", detail=cond[0])
             _rec_args(ck, collect, e, "inline")
         _condition_match_table(ck, repo)
@@ -324,6 +340,11 @@ def _should_include_table(ck, repo):
     wcall = fv.one_call("wraps_with_directives")
     ck.ob("should_include_node: the chosen hook name is the one wrapped", arg_text(wcall, 1, "directive_hook") == unparse(hook_assign.targets[0]),
           f, wcall, construct="hook:passed")
+    ck.ob("should_include_node: the chain has the identity default innermost (a selection whose directives define no collection hook is kept)",
+          arg_text(wcall, 4, "with_default") == "True" and arg(wcall, 2, "func") is None, f, wcall, construct="hook:with-default")
+    outer = fv.parent(wcall)
+    ok = isinstance(outer, ast.Call) and outer.func is wcall and [unparse(a) for a in outer.args] == [node_p, f"{f.positional_params[0]}.context"] and fv.is_awaited(outer)
+    ck.ob("should_include_node: the chain is awaited with (the node, the request context)", ok, f, wcall, construct="hook:operands")
     cdn = fv.one_call("compute_directive_nodes")
     ck.ob("should_include_node: directives of *this* node are computed with the request's variables",
           arg_text(cdn, 1) == f"{node_p}.directives" and "variable_values" in (arg_text(cdn, 2) or ""), f, cdn,
@@ -477,6 +498,13 @@ def _execute_fields_alignment(ck, repo):
           wb[0] if wb else f.node, construct="deferred:write-back")
     g = fv.one_call("gather")
     gs = fv.stmt_of(g)
+    gconds = set(fv.conditions(g))
+    ck.ob("execute_fields: deferred fields are awaited whenever there are any", gconds in ({("to_await", "T")}, set()), f, g, construct="deferred:gather-guard", detail=str(gconds))
+    ck.ob("execute_fields: the write-back runs whenever there are deferred fields", len(wb) == 1 and set(fv.conditions(wb[0])) in ({("to_await", "T")}, set()), f,
+          wb[0] if wb else f.node, construct="deferred:write-back-guard")
+    dconds = set(fv.conditions(stores[0])) if stores else set()
+    ck.ob("execute_fields: a field is deferred exactly when its parent_concurrently flag is set (and defined)",
+          dconds == {("field_definition is None", "F"), ("field_definition.parent_concurrently", "T")}, f, stores[0] if stores else loop, construct="deferred:flag", detail=str(dconds))
     ck.ob("execute_fields: the gather awaits exactly the deferred coroutines, in dict order",
           isinstance(gs, ast.Assign) and unparse(gs.targets[0]) == gather_name and
           unparse(g.args[0]) in ("*list(to_await.values())", "*to_await.values()"), f, g, construct="deferred:gather-operands")
@@ -540,6 +568,13 @@ def _execute_fields_alignment(ck, repo):
     rcall = rv.one_call("resolver")
     ck.ob("execute.resolve_field forwards its operands to the baked resolver unchanged",
           [unparse(a) for a in rcall.args] == rp[:6] and rv.is_awaited(rcall), rf, rcall, construct="resolve_field:forward")
+    un = [r for r in rv.returns() if unparse(r.value) == "UNDEFINED_VALUE"]
+    ck.ob("execute.resolve_field: an unknown field yields the undefined marker (dropped from the response), nothing else does",
+          len(un) == 1 and set(rv.conditions(un[0])) == {("field_definition is None", "T")} and rv.guarded(rcall, lambda t: t == "field_definition is None", "F"), rf,
+          un[0] if un else rf.node, construct="resolve_field:unknown")
+    fn_src = [n for n in walk_no_nested(rf.node) if isinstance(n, ast.Assign) and unparse(n.targets[0]) == "field_name"]
+    ck.ob("execute.resolve_field: the looked-up name is the first node's field name", len(fn_src) == 1 and unparse(fn_src[0].value) in (f"{rp[3]}[0].name.value", "field_node.name.value"),
+          rf, fn_src[0] if fn_src else rf.node, construct="resolve_field:name")
     g = rv.one_call("get_field_definition")
     ck.ob("execute.resolve_field looks the field up by the first node's name",
           [unparse(a) for a in g.args][:2] == [f"{rp[0]}.schema", rp[1]], rf, g, construct="resolve_field:lookup")
@@ -569,6 +604,19 @@ def _resolver_call(ck, repo):
             bad += 1
     ck.ob("resolve_field_value_or_error: every non-exceptional path calls the resolver exactly once", n_paths > 0 and bad == 0, f, rc,
           construct="resolver:once-per-path", detail=f"{n_paths} paths, {bad} offending", evals=max(1, n_paths))
+    st = fv.stmt_of(rc)
+    resname = unparse(st.targets[0]) if isinstance(st, ast.Assign) else None
+    plain = [r for r in fv.returns() if resname is not None and unparse(r.value) == resname]
+    ck.ob("resolve_field_value_or_error: what the resolver returned is the value handed to completion",
+          len(plain) == 1 and set(fv.conditions(plain[0])) == {(f"{p[5]}.is_introspection", "F")}, f, plain[0] if plain else rc, construct="resolver:result-returned")
+    ic = fv.maybe_call("introspection_directives_executor")
+    ok = ic is not None and set(fv.conditions(ic)) == {(f"{p[5]}.is_introspection", "T")} and resname is not None and \
+        [unparse(a) for a in ic.args] == [resname, f"{p[0]}.context", p[5]] and isinstance(fv.stmt_of(ic), ast.Return) and fv.is_awaited(ic)
+    ck.ob("resolve_field_value_or_error: only introspection results pass through the hiding executor, which gets (result, ctx, info)", ok, f, ic or rc,
+          construct="resolver:introspection-only")
+    hs = [h for h in fv.handlers()]
+    ok = len(hs) == 1 and hs[0].name and len(hs[0].body) == 1 and isinstance(hs[0].body[0], ast.Return) and unparse(hs[0].body[0].value) == hs[0].name
+    ck.ob("resolve_field_value_or_error: a failure is returned as a value (completion turns it into an error)", ok, f, hs[0] if hs else f.node, construct="resolver:failure-as-value")
     args = rc.args
     ck.ob("resolver operands: parent value first", len(args) >= 4 and unparse(args[0]) == p[4], f, rc, construct="resolver:arg0")
     a1 = strip_await(args[1]) if len(args) > 1 else None
